@@ -27,7 +27,21 @@ OPS = {'>=': operator.ge, '>': operator.gt, '<=': operator.le, '<': operator.lt,
 SIMS = {'jaccard': Jaccard().get_raw_score, 'cosine': Cosine().get_raw_score, 'dice': Dice().get_raw_score,
         'overlap_coefficient': OverlapCoefficient().get_raw_score}
 MEASURE_OF = {'jaccard': 'JACCARD', 'cosine': 'COSINE', 'dice': 'DICE'}
-LEV = Levenshtein().get_raw_score
+def LEV(a, b):
+    """Levenshtein distance, own implementation (the oracle must not borrow its reference from the code under test:
+    py_stringmatching 0.4.7's compiled Levenshtein compares characters modulo 256 — known finding K8)"""
+    if a == b:
+        return 0
+    prev = list(range(len(b) + 1))
+    for i, ca in enumerate(a, 1):
+        cur = [i]
+        for j, cb in enumerate(b, 1):
+            cur.append(min(prev[j] + 1, cur[j - 1] + 1, prev[j - 1] + (ca != cb)))
+        prev = cur
+    return prev[-1]
+
+
+LEV_REAL = Levenshtein().get_raw_score
 from py_stringsimjoin.utils.converter import series_to_str, dataframe_column_to_str   # noqa: E402
 
 
@@ -357,6 +371,12 @@ def oracle_edit_distance(rng, n, stats, props=('C03',)):
                 share = len(set(ts.tokens(ls, False)) & set(ts.tokens(rs, False))) > 0
                 qual = op(d, tau)
                 present = (a, b) in got
+                dr = LEV_REAL(ls, rs)
+                if dr != d:
+                    # the dependency's Levenshtein is wrong on this pair (known finding K8): say so in the case
+                    case = dict(case, pair_strings=[ls, rs], true_levenshtein=d, py_stringmatching_levenshtein=int(dr))
+                else:
+                    case = {k: x for k, x in case.items() if k not in ('pair_strings', 'true_levenshtein', 'py_stringmatching_levenshtein')}
                 if present and not qual:
                     v.append(viol('C03', 'returned pair with distance %d not satisfying %s %d' % (d, kw['comp_op'], tau), case, None, [a, b]))
                 if present and len(got[(a, b)]) > 1:
@@ -623,7 +643,7 @@ def oracle_pipeline(rng, n, stats):
                 tau = int(math.floor(t))
                 F = FILTERS[fk](ts.obj, 'EDIT_DISTANCE', tau)
                 C = F.filter_tables(L, R, lk, rk, la, ra, n_jobs=rng.choice([1, 2]), show_progress=False)
-                P = ssj.apply_matcher(C, 'l_' + lk, 'r_' + rk, L, R, lk, rk, la, ra, None, LEV, tau, kw['comp_op'], n_jobs=rng.choice([1, 2]), show_progress=False)
+                P = ssj.apply_matcher(C, 'l_' + lk, 'r_' + rk, L, R, lk, rk, la, ra, None, LEV_REAL, tau, kw['comp_op'], n_jobs=rng.choice([1, 2]), show_progress=False)
             else:
                 ts.obj.set_return_set(not bag_mode)
                 fk = 'size' if it == 0 else rng.choice(['size', 'prefix', 'position', 'overlap'])
@@ -1095,7 +1115,7 @@ def oracle_converter(rng, n, stats, known):
         mode = rng.choice(['series', 'frame'])
         case = {'entry': 'converter', 'mode': mode, 'dtype': str(s.dtype), 'values': [cell(x) for x in vals], 'inplace': inplace, 'return_col': return_col}
         present = [x for x in vals if not is_missing(x)]
-        numeric = kind in ('int', 'float_int', 'float', 'float_inf', 'float_allnan', 'empty_float')
+        numeric = kind in ('int', 'float_int', 'float', 'float_inf', 'float32', 'float_allnan', 'empty_float')
         all_int = numeric and len(present) > 0 and all(float(x).is_integer() for x in present)
 
         def expected(x):
